@@ -39,6 +39,7 @@ class Truth:
         self.limits = {}     # affinity -> {level: limit}
         self.groups = {}     # group -> count
         self.down = {}       # server -> (tmin, tmax)
+        self.marks = {}      # app -> server it was explicitly marked on
 
     def capacity_of(self, sname):
         spec = self.srv.get(sname)
@@ -88,6 +89,11 @@ class Truth:
 
     def down_interval(self, sname):
         return self.down.get(sname)
+
+    def marked(self, aname, sname):
+        """Was the instance explicitly marked for unscheduling on this server
+        (and has not left it since)?"""
+        return self.marks.get(aname) == sname
 
     def why_unplaced(self, app, ctx):
         for ev in ctx.rec.events:
@@ -252,6 +258,36 @@ class World:
                             'up_ago': op['up_ago']})
         self.faults['srv_resized'] += 1
 
+    def op_reload_cell(self, op):
+        """What Loader.load_cell does on a 'cell' event: the top level
+        buckets are detached and the listed ones attached again."""
+        pods = [n for n in op['pods'] if n in self.buckets and
+                n.startswith('pod:')]
+        self.cell.reset_children()
+        for name in pods:
+            self.cell.add_node(self.buckets[name])
+        members = cellobs.leaves(self.cell)
+        for sname, srv in self.servers.items():
+            if sname not in members:
+                srv.remove_all()
+                self.truth.down.pop(sname, None)
+        self.faults['cell_reloaded'] = self.faults.get('cell_reloaded', 0) + 1
+
+    def op_add_pod(self, op):
+        """A new top level bucket with a rack (and servers) is defined and
+        inserted into the cell (buckets event + cell event)."""
+        if op['name'] in self.buckets:
+            return
+        pod = scheduler.Bucket(op['name'], level='pod')
+        self.buckets[op['name']] = pod
+        rack = scheduler.Bucket(op['rack'], level='rack')
+        self.buckets[op['rack']] = rack
+        pod.add_node(rack)
+        attached = [c.name for c in self.cell.children if c is not None]
+        self.op_reload_cell({'pods': attached + [op['name']]})
+        for spec in op['servers']:
+            self.op_add_server(spec)
+
     def op_srv_state(self, op):
         srv = self.servers.get(op['name'])
         if srv is None:
@@ -296,6 +332,7 @@ class World:
             return
         self.cell.remove_app(op['name'])
         del self.truth.apps[op['name']]
+        self.truth.marks.pop(op['name'], None)
 
     def op_set_prio(self, op):
         app = self.cell.apps.get(op['name'])
@@ -360,6 +397,7 @@ class World:
             app = srv.apps.get(aname)
             if app is not None:
                 app.unschedule = True
+                self.truth.marks[aname] = op['server']
         self.op_srv_state({'name': op['server'], 'state': 'frozen'})
 
     def op_advance(self, op):
@@ -421,6 +459,11 @@ class World:
             if bad is not None:
                 self.fail(bad[0], bad[1])
                 break
+        # an explicit mark lasts while the instance stays on that server
+        for aname, sname in list(self.truth.marks.items()):
+            post = ctx.post.get(aname)
+            if post is None or post.server != sname:
+                del self.truth.marks[aname]
         state = sorted((n, s.server, s.identity) for n, s in ctx.post.items())
         srvs = sorted((n, v[0]) for n, v in ctx.pre_srv.items())
         self.fps.append(logmod.fingerprint([state, srvs]))
@@ -598,7 +641,8 @@ OP_WEIGHTS = [
     ('srv_state', 12), ('add_server', 2), ('remove_server', 2),
     ('resize_server', 2), ('alloc', 3), ('group', 4), ('group_remove', 1),
     ('blacklist', 3), ('renew', 2), ('unschedule', 2), ('advance', 8),
-    ('tick', 1), ('cycle', 26), ('probe', 0),
+    ('tick', 1), ('cycle', 26), ('probe', 0), ('reload_cell', 2),
+    ('add_pod', 1),
 ]
 
 
@@ -739,6 +783,30 @@ class Generator:
         spec = self._srv_spec(world, 's%d' % self.nsrv, self.rng.choice(racks))
         spec['op'] = 'add_server'
         return spec
+
+    def g_reload_cell(self, world):
+        pods = sorted(b for b in world.buckets if b.startswith('pod:'))
+        order = list(pods)
+        self.rng.shuffle(order)
+        if len(order) > 1 and self.rng.random() < 0.3:
+            order = order[:-1]          # one pod stays detached
+        return {'op': 'reload_cell', 'pods': order}
+
+    def g_add_pod(self, world):
+        pods = [b for b in world.buckets if b.startswith('pod:')]
+        if len(pods) >= 5:
+            return None
+        idx = len(pods)
+        name = 'pod:n%d' % idx
+        rack = 'rack:n%dr0' % idx
+        servers = []
+        for _ in range(self.rng.randint(1, 2)):
+            self.nsrv += 1
+            spec = self._srv_spec(world, 's%d' % self.nsrv, rack)
+            spec['op'] = 'add_server'
+            servers.append(spec)
+        return {'op': 'add_pod', 'name': name, 'rack': rack,
+                'servers': servers}
 
     def g_remove_server(self, world):
         name = self._some_srv(world)
